@@ -620,6 +620,39 @@ def server_hostile(rng, quick=True):
     for v in TE_BAD:
         new("te-unsupported", lambda sid, idx, v=v: _req_head(sid, idx, "POST", [b"Transfer-Encoding: " + v]) + b"5\r\nhello\r\n0\r\n\r\n",
             rng.random() < 0.5, note="Transfer-Encoding: " + v.decode())
+    # conflicting length information: Transfer-Encoding x Content-Length (RFC 9112 6.3 rule 3). Reference
+    # framer: TE + *any* Content-Length (also one that parses to zero, zero-padded, list form) -> rejected
+    # and connection closed, handler not invoked, the pipelined request behind it never served.
+    # Enumerated: CL value x header order x body shape (plain chunk / chunk whose data is itself a request),
+    # cuts inside and right after the header block (body in a later segment) and around the message end.
+    plain_body = b"5\r\nhello\r\n0\r\n\r\n"
+    cl_vals = [b"0", b"00", b"000", b"0, 0", b"0,0", b"1", b"5", b"4", b"6", b"%d" % len(plain_body), b"%d" % (len(plain_body) - 1),
+               b"%d" % (len(plain_body) + 1), b"5, 5", b"05", b"4294967296", b"18446744073709551615"]
+    for ci, v in enumerate(cl_vals):
+        zero = v.replace(b",", b"").replace(b" ", b"").strip(b"0") == b""
+        orders = (True, False) if (zero or not quick) else (ci % 2 == 0,)
+        for te_first in orders:
+            shapes = ("plain", "smuggle") if (zero or not quick) else (("plain", "smuggle")[(ci // 2) % 2],)
+            for shape in shapes:
+                def build(sid, idx, v=v, te_first=te_first, shape=shape):
+                    hs = [b"Transfer-Encoding: chunked", b"Content-Length: " + v]
+                    if not te_first:
+                        hs.reverse()
+                    if shape == "plain":
+                        body = plain_body
+                    else:
+                        inner = b"GET /c/%s/9 HTTP/1.1\r\nHost: smuggled.test\r\n\r\n" % sid.encode()
+                        body = b"%x\r\n" % len(inner) + inner + b"\r\n0\r\n\r\n"
+                    return _req_head(sid, idx, "POST", hs) + body
+                st = new("cl-and-te", build, (ci + int(te_first)) % 3 == 0,
+                         note="Transfer-Encoding: chunked %s Content-Length: %s (%s)" % ("before" if te_first else "after", v.decode(),
+                              "chunk data is itself a request" if shape == "smuggle" else "one 5-byte chunk"))
+                # extra cuts: exactly behind the hostile header block (body arrives in a later read), inside
+                # its CRLFCRLF, and right behind the hostile message (pipelined request in its own read)
+                hb_at = st.wire.find(b"Transfer-Encoding: chunked")
+                he = st.wire.find(b"\r\n\r\n", hb_at) + 4
+                extra = sorted(set(c for c in (he - 2, he, he + 3) if 0 < c < len(st.wire)))
+                st.segspec = st.segspec.replace(";M:1", "") + "," + ",".join(map(str, extra)) + ";X:%d,%d;M:1" % (he, min(len(st.wire) - 1, he + 3))
     for size in (SERVER_HEADER_CAP + 2000, 200000):
         new("header-over-cap", lambda sid, idx, size=size: _req_head(sid, idx, "GET", [b"X-Huge: " + b"h" * size]), False,
             note="single header line of %d bytes" % size)
